@@ -1554,6 +1554,10 @@ func (c *Conn) executeQueryAttempt(ctx context.Context, qry *Query, reprepared i
 		return &Iter{framer: framer}
 	case *schemaChangeKeyspace, *schemaChangeTable, *schemaChangeFunction, *schemaChangeAggregate, *schemaChangeType:
 		iter := &Iter{framer: framer}
+		// the queries awaitSchemaAgreement itself sends (pinned to this connection) must not wait again
+		if qry.conn != nil {
+			return iter
+		}
 		if err := c.awaitSchemaAgreement(ctx); err != nil {
 			// TODO: should have this behind a flag
 			c.logger.Println(err)
